@@ -872,6 +872,100 @@ pub fn long_subject_replace(rep: &mut Report, which: usize, n: usize, seed: u64)
     }
 }
 
+// ------------------------------------------------------------------ depth instead of width
+
+/// Two families nested `depth` levels deep without being wide:
+/// T(0) = a, T(i+1) = a . (eps + T(i))            : the language a^[1, depth+1]
+/// U(0) = c_0, U(i+1) = c_(i+1) + c_(i+1) . U(i)   : the descending runs c_depth c_(depth-1) ... c_j (all start with c_depth)
+pub fn deep_nesting(rep: &mut Report, prop: &str, depth: u32, seed: u64) {
+    let case = format!("nesting {} {}", prop, depth);
+    let r = guard(|| -> Result<(), String> {
+        let mut m = ReManager::new();
+        let a = m.char(0x61);
+        let mut t = a;
+        for _ in 0..depth {
+            let o = m.opt(t);
+            t = m.concat(a, o);
+        }
+        let c = |i: u32| 0x1000 + i;
+        let mut u = m.char(c(0));
+        for i in 1..=depth {
+            let ci = m.char(c(i));
+            let cu = m.concat(ci, u);
+            u = m.union(ci, cu);
+        }
+        rep.inc("deeply_nested_terms_built");
+        rep.max("nesting_depth", depth as u64);
+        let run = |hi: u32, lo: u32| -> Vec<u32> { (lo..=hi).rev().map(c).collect() };
+        match prop {
+            "C02" => {
+                let (at, au) = (m.compile(t), m.compile(u));
+                // a^[1,d+1]: d+2 live states and a sink; descending runs: start, one state per letter, final... by definition below
+                if at.num_states() != depth as usize + 3 {
+                    return Err(format!("compile of a.(eps + a.(eps + ...)) nested {} deep has {} states, the language a^[1,{}] needs {}", depth, at.num_states(), depth + 1, depth + 3));
+                }
+                for j in [0u32, 1, depth, depth + 1, depth + 2] {
+                    let w = vec![0x61; j as usize];
+                    if at.accepts(&sw(&w)) != (j >= 1 && j <= depth + 1) {
+                        return Err(format!("automaton of the nested term accepts a^{} = {}", j, at.accepts(&sw(&w))));
+                    }
+                }
+                for (w, want) in [(run(depth, 0), true), (run(depth, depth), true), (run(depth, depth / 2), true), (run(depth / 2, 1), false), (vec![c(1), c(2)], false), (run(depth, 0).into_iter().chain([c(0)]).collect(), false)] {
+                    if au.accepts(&sw(&w)) != want {
+                        return Err(format!("automaton of the nested union (depth {}) accepts a descending run of length {} = {}, expected {}", depth, w.len(), !want, want));
+                    }
+                }
+            }
+            "C05" => {
+                if m.is_empty_re(t) || m.is_empty_re(u) {
+                    return Err(format!("is_empty_re of a term nested {} deep is true", depth));
+                }
+                let (wt, wu) = (m.get_string(t), m.get_string(u));
+                let ok_t = wt.as_ref().map_or(false, |w| w.len() >= 1 && w.len() <= depth as usize + 1 && w.iter().all(|&x| x == 0x61));
+                let ok_u = wu.as_ref().map_or(false, |w| m.str_in_re(w, u));
+                if !ok_t || !ok_u {
+                    return Err(format!("get_string of the terms nested {} deep: {:?} / {:?}", depth, wt.map(|w| w.len()), wu.map(|w| w.len())));
+                }
+                let nb = m.char(0x62);
+                let both = m.inter(t, nb);
+                if !m.is_empty_re(both) || m.get_string(both).is_some() {
+                    return Err("the intersection of the nested term with another letter is not reported empty".into());
+                }
+            }
+            _ => {
+                if t.nullable || u.nullable {
+                    return Err("nullable flag of a deeply nested term is true".into());
+                }
+                for j in [0u32, 1, 2, depth, depth + 1, depth + 2] {
+                    rep.inc("deep_membership_answers");
+                    let w = vec![0x61; j as usize];
+                    let got = m.str_in_re(&sw(&w), t);
+                    if got != (j >= 1 && j <= depth + 1) {
+                        return Err(format!("str_in_re(a^{}, a.(eps + a.(eps + ...)) nested {} deep) = {}", j, depth, got));
+                    }
+                }
+                for (w, want) in [(run(depth, 0), true), (run(depth, depth), true), (run(depth / 2, 1), false), (run(depth, depth / 2), true), (vec![c(1), c(2)], false), (run(depth, 1).into_iter().chain([c(1)]).collect(), false), (vec![], false)] {
+                    rep.inc("deep_membership_answers");
+                    let got = m.str_in_re(&sw(&w), u);
+                    if got != want {
+                        return Err(format!("str_in_re on the union nested {} deep: a run of length {} gives {}, expected {}", depth, w.len(), got, want));
+                    }
+                }
+                let nt = m.complement(t);
+                if m.str_in_re(&sw(&[0x61]), nt) || !m.str_in_re(&sw(&vec![0x61; depth as usize + 2]), nt) {
+                    return Err("complement of the deeply nested term answers wrongly".into());
+                }
+            }
+        }
+        Ok(())
+    });
+    match r {
+        Ok(Ok(())) => {}
+        Ok(Err(e)) => viol(rep, "nesting", prop, e, seed, &case),
+        Err(msg) => viol(rep, "nesting", "panic", format!("panicked on terms nested {} deep: {}", depth, msg), seed, &case),
+    }
+}
+
 pub fn replay(text: &str, seed: u64, rep: &mut Report) -> bool {
     if let Some(rest) = text.trim().strip_prefix("powers ") {
         if let Some((a, b)) = rest.split_once(';') {
@@ -894,6 +988,13 @@ pub fn replay(text: &str, seed: u64, rep: &mut Report) -> bool {
         ["long-replace", k, n] => {
             if let (Ok(k), Ok(n)) = (k.parse::<usize>(), n.parse::<usize>()) {
                 long_subject_replace(rep, k, n, seed);
+                return true;
+            }
+            false
+        }
+        ["nesting", p, d] => {
+            if let Ok(d) = d.parse::<u32>() {
+                deep_nesting(rep, p, d, seed);
                 return true;
             }
             false
